@@ -157,6 +157,7 @@ TreeSet_pop(BTree* self, PyObject* args)
         }
     }
 
+    Py_DECREF(key);  /* the reference minKey() gave us */
     return result;
 }
 
